@@ -19,7 +19,6 @@ OUT_OF_SCOPE = {
     "cola/backends/jax_fns.py": "jax backend (jax is not installed offline)",
     "cola/backends/torch_fns.py": "torch backend (torch is not installed offline)",
     "cola/utils/jax_tqdm.py": "progress bars for jax",
-    "cola/utils/torch_tqdm.py": "progress bars for torch",
     "cola/utils/utils_for_tests.py": "test utilities",
     "cola/version.py": "version string",
 }
